@@ -357,7 +357,13 @@ func init() {
 			raceMode = true
 			var us []*Unit
 			pick := func(id string, every int, maxUnits int) {
-				src := registry[id].Units(tier)
+				// the probes build is an order of magnitude slower: the thorough tier takes every unit of the
+				// other checks' quick tiers (the quick tier every 2nd-4th) and only C12's own thorough units
+				srcTier := tier
+				if tier == "thorough" && id != "C12" {
+					srcTier = "quick"
+				}
+				src := registry[id].Units(srcTier)
 				n := 0
 				for i, u := range src {
 					// loop steps that end without running (disabled, closed early) next to live steps are rare
